@@ -111,7 +111,7 @@ func readChunks(ctx context.Context, ch <-chan *birch.Document, o chan<- *Chunk)
 		// the sample count is read from the (possibly corrupt) stream and
 		// zero runs expand without consuming input, so bound the size of
 		// the table before allocating and filling it.
-		if nmetrics > 0 && ndeltas > maxChunkValues/nmetrics {
+		if ndeltas > maxChunkValues || (nmetrics > 0 && ndeltas > maxChunkValues/nmetrics) {
 			return errors.Errorf("chunk with %d metrics and %d samples exceeds the supported size, file likely corrupt", nmetrics, ndeltas)
 		}
 
